@@ -20,7 +20,7 @@ RULE = ('kind=hop: transport {smtp, http, lmtp} x envelopes (sender in {null, pl
         'random inputs against the model. distinct = distinct case descriptor; non-trivial = every case.')
 BUDGET_S = {'quick': 170, 'thorough': 1200}
 
-LOCALS = ['user', 'first.last', 'a+tag', '"quoted local"', '"esc\\"aped>x"', '"back\\\\slash"', '"a>b"', '"at@sign"', '"semi;colon,comma"', 'uüñ', '你好', 'x' * 40, '"sp  ace"']
+LOCALS = ['user', 'first.last', 'a+tag', '"quoted local"', '"esc\\"aped>x"', '"back\\\\slash"', '"dir\\\\"', '"q\\\\\\">x"', '"\\\\\\\\"', '"a>b"', '"at@sign"', '"semi;colon,comma"', 'uüñ', '你好', 'x' * 40, '"sp  ace"']
 DOMAINS = ['example.com', 'sub.domain.example', 'xn--bcher-kva.example', 'bücher.example', '[127.0.0.1]']
 
 
@@ -79,7 +79,7 @@ def cases(tier, seed, phase):
                 toks = [base64.b64encode(bytes(rng.randrange(256) for _ in range(rng.randint(1, 12)))).decode() for _ in range(rng.randint(1, 6))]
                 seps = [rng.choice([',', ', ', ' , ', ';', ' ;  ', ',\t']) for _ in toks[1:]]
                 return {'kind': 'unit', 'what': 'split', 'toks': toks, 'seps': seps}
-            addr = rng.choice(['', 'a@b.c', '"q q"@x.y', '"a>b"@c.d', 'a>b@c.d', '"open@x.y', 'uü@x.y', 'a@b.c> SIZE=5', '"a""b>"@c'])
+            addr = rng.choice(['', 'a@b.c', '"q q"@x.y', '"a>b"@c.d', 'a>b@c.d', '"open@x.y', 'uü@x.y', 'a@b.c> SIZE=5', '"a""b>"@c', '"dir\\\\"@e.f', '"x\\\\\\">y"@e.f', '"\\\\"@e.f> SIZE=1'])
             return {'kind': 'unit', 'what': 'mail', 'addr': addr, 'size': rng.choice([None, 0, 12, 99999]), 'utf8': rng.random() < 0.6}
         yield mk
 
